@@ -1,0 +1,12 @@
+//go:build verif
+
+package watch
+
+// VerifRelease closes the file-system notification handle of a watcher that was loaded but never
+// run (verification hook, build tag "verif"): in-process fuzzing of the configuration loader
+// would otherwise leak one inotify instance per loaded watcher definition.
+func (w *Watcher) VerifRelease() {
+	if w.fsw != nil {
+		_ = w.fsw.Close()
+	}
+}
